@@ -138,28 +138,47 @@ func callsTaggedPrecondition(p *Program, key, prop string) bool {
 	if fn == nil {
 		return false
 	}
-	for _, b := range fn.Blocks {
-		for _, ins := range b.Instrs {
-			call, ok := ins.(ssa.CallInstruction)
-			if !ok {
-				continue
-			}
-			callee := call.Common().StaticCallee()
-			if callee == nil {
-				continue
-			}
-			cc := p.cs.Funcs[funcKey(callee)]
-			if cc == nil {
-				continue
-			}
-			for _, cl := range cc.Requires {
-				if hasTag(cl.Tags, prop) {
-					return true
+	seen := map[*ssa.Function]bool{}
+	var scan func(f *ssa.Function, depth int) bool
+	scan = func(f *ssa.Function, depth int) bool {
+		if f == nil || seen[f] || depth > 3 {
+			return false
+		}
+		seen[f] = true
+		for _, b := range f.Blocks {
+			for _, ins := range b.Instrs {
+				call, ok := ins.(ssa.CallInstruction)
+				if !ok {
+					continue
+				}
+				callee := call.Common().StaticCallee()
+				if callee == nil {
+					continue
+				}
+				cc := p.cs.Funcs[funcKey(callee)]
+				if cc == nil {
+					// no contract: the callee is inlined, its call sites count as well
+					if scan(callee, depth+1) {
+						return true
+					}
+					continue
+				}
+				for _, cl := range cc.Requires {
+					if hasTag(cl.Tags, prop) {
+						return true
+					}
 				}
 			}
 		}
+		// closures created by the function (once.Do bodies) are inlined
+		for _, af := range f.AnonFuncs {
+			if p.cs.Funcs[funcKey(af)] == nil && scan(af, depth+1) {
+				return true
+			}
+		}
+		return false
 	}
-	return false
+	return scan(fn, 0)
 }
 
 func runProperty(p *Program, prop string, budget int) *propRun {
